@@ -348,11 +348,18 @@ def run_C03(ctx):
                 toks[pos] = rng.choice(list("()[]|,;=+-*/^!"))
             t = "".join(toks)
         texts.append(t)
+    n_random = len(texts)
     for rows in (2, 3, 4):
         for lens in itertools.product((1, 2, 3), repeat=rows):
             texts.append("[" + ";".join(",".join(["1"] * n) for n in lens) + "]")
             texts.append("hh(v) = [" + ";".join(",".join(["v"] * n) for n in lens) + "]")
     texts += [t for t in SYNTAX_FAULTS]
+    ops = ["+", "-", "*", "/", "%", "^", "dot", "cross", "•", "×"]
+    for o1 in ops:
+        texts += ["a %s p %s c" % (o1, o1), "a %s p %s c %s d" % (o1, o1, o1), "-a %s p %s c" % (o1, o1), "a %s p! %s c" % (o1, o1), "f(1)(2)(3) %s a %s p" % (o1, o1)]
+        for o2 in ops:
+            texts += ["a %s p %s c" % (o1, o2), "a %s p %s c %s d" % (o1, o2, o1)]
+    texts += ["f(1)(2)", "f(1)(2)(3)", "f()()", "(f)(1)(2)", "f(1)(2) = 3", "a(1)(2)!", "-f(1)(2)", "2^f(1)(2)", "--a", "√-a", "-√a", "√√a", "2^-√a", "|-√a|", "1+-√a", "---a", "-a!", "√a!", "a!!", "a!!!", "(a!)!", "a!^2", "a^p!", "-a^p", "√a^p"]
     for n in (254, 255, 256, 257, 400, 1000):
         ones = ",".join(["1"] * n)
         texts += ["f(%s)" % ones, "[%s]" % ones, "[%s]" % ";".join(["1"] * n), "ff(%s) = 1" % ",".join("p%d" % i for i in range(n)), "delete ff(%s)" % ",".join("p%d" % i for i in range(n)),
@@ -362,6 +369,8 @@ def run_C03(ctx):
         for n in (3, 65, 130):
             texts.append("\n".join([form] * n) + "\n1 + 2\n")
             texts.append(";".join([form] * n) + ";1 + 2;")
+    # the explicit texts above are meant as whole programs: give each its final delimiter (the random ones carry their own)
+    texts = [t if (k < n_random or t.endswith("\n") or t.endswith(";")) else t + "\n" for k, t in enumerate(texts)]
     do_stream(ctx, "parset", ("parset p%d %d %s" % (k, 4, hx(t)) for k, t in enumerate(texts)), P, oracle=oracles.oracle_parse_text)
     from . import front
     front.malformed_text_on_binary(ctx, rng, 30 if quick else 300)
@@ -532,7 +541,7 @@ def run_C11(ctx):
     P = props.proj_values(consts_only=True)
     prelude = ("x = 10\ny = 20\npi2 = 2*pi\nf(x) = x + y\ngg(y, sin) = y * 2 + x\nh(pi, e) = pi + e\nk(f) = f + 1\n"
                "r(0) = 1\nr(n) = n * r(n - 1)\nbad(a) = a / 0\nbad2(a) = unknown + a\nnest(a) = f(gg(a, 1)) + h(a, a)\nsh(x) = k(x) + f(x)\n"
-               "apply(hh, x) = hh(x)\ntwice(hh) = hh(hh)\nkk() = 2^10 + 3!\nhalf() = 1/2\nww() = √(-4)\ncc() = [1, 2; 3, 4]\ndup(x, x) = x\nfc(n) = n!\n")
+               "apply(hh, x) = hh(x)\ntwice(hh) = hh(hh)\nkk() = 2^10 + 3!\nhalf() = 1/2\nww() = √(-4)\ncc() = [1, 2; 3, 4]\ndup(x, x) = x\nfc(n) = n!\ndist = 5 km\nmass1 = 2 kg\ntemp1 = 20 °C\nstor = 3 KiB\nmat1 = [1, 2; 3, 4]\nvec1 = [1, 2, 3]\n")
     g = gen.ExprGen(rng, vars_num=("x", "y", "pi2"), funcs=("f", "k", "sh", "nest", "sqrt", "bad", "bad2", "abs", "half", "kk"))   # not `r`: r(non-integer) never ends (known finding K4)
     ex = []
     for _ in range(2500 if quick else 50000):
@@ -541,10 +550,12 @@ def run_C11(ctx):
            "f(1) + x", "x + f(1)", "[f(1), x; y, gg(1,2)]", "f(1, 2)", "f()", "sin(x)", "h(1)", "r(-1 + 1)", "k(sin)", "k([1,2])",
            "apply(f, 3)", "apply(r, 3)", "apply(sin, 0)", "apply(bad, 1)", "twice(f)", "twice(sin)", "apply(k, 2)", "apply(apply, 1)", "kk()", "half()", "ww()", "cc()",
            "kk() + half()", "dup(1, 2)", "dup(bad(1), 2)", "apply(dup, 1)", "apply(kk, 1)",
+           "dist as m", "(mass1 as g) * 2", "temp1 as °F", "dist as km", "stor as b", "(dist as cm) + dist", "mat1 * 2", "transpose(mat1)", "dist + 1 m", "-dist", "dist * 2", "dist / 2", "inverse(mat1)", "mat1 * mat1",
+           "vec1 cross vec1", "vec1 dot vec1", "|vec1|", "-mat1", "mat1 / 2", "f(dist)", "k(dist as m)", "apply(sqrt, dist)", "dist as kg", "mat1 as m", "(dist) as m", "[dist as m]", "dist as m as cm",
            "PI", "Tau", "Sin(0)", "Log2(8)", "E", "I", "Pi2", "X", "F(1)", "PI + Tau", "Sqrt(4)", "GCD(4, 6)", "Phi"]
     ex += ["%d! %s %d!" % (n, op, m) for n, m in [(25, 5), (30, 3), (28, 4), (100, 7), (170, 20), (26, 24), (40, 23), (5, 25)] for op in ("-", "/", "+")]
     ex += ["fc(28) + fc(4)", "fc(30) / fc(3)", "fc(25) - fc(5) - (fc(25) - fc(5))", "[fc(27), fc(6)]", "fc(fc(4))"]
-    texts = ["x\ny\nf\ngg\nh\nk\nsin\npi\ne\nkk\nhalf\nww\nr\napply\ndup\nhh\nPI\nTau\nPI = 1\nTau = 1\ndelete Sin\n"]
+    texts = ["dist\nmass1\ntemp1\nstor\nmat1\nvec1\nx\ny\nf\ngg\nh\nk\nsin\npi\ne\nkk\nhalf\nww\nr\napply\ndup\nhh\nPI\nTau\nPI = 1\nTau = 1\ndelete Sin\n"]
     ex += []
     do_stream(ctx, "eval-in-env", (gen.hist_case("v%d" % k, [prelude, e + "\n"] + texts) for k, e in enumerate(ex)), P,
               monitors={"eval_mutated", "eval_not_repeatable", "frame_violated"}, setup=1)
@@ -555,15 +566,17 @@ def run_C12(ctx):
     # independence is judged on the implementation by two monitors: after every statement no binding other than the
     # statement's target has changed (frame), and no two names share one function handle (alias)
     P = props.proj_values(consts_only=True)
-    hist_streams(ctx, P, {"alias", "frame_violated"}, oracle=oracles.oracle_frame)
+    hist_streams(ctx, P, {"alias", "frame_violated", "builtins_changed"}, oracle=[oracles.oracle_frame, oracles.oracle_guarded])
     extra = ["sq(v) = v*v\nhh = sq\ndelete sq\nww = hh(3)\nsq\nhh\n", "sq(v) = v*v\nhh = sq\ndelete sq\nww = hh(3)\nsq(v, k) = 0\nhh\ndelete sq(v)\nhh\nhh(4)\n",
              "xx = 7\ndup(xx, xx) = xx\nyy = dup(1, 2)\nxx\n", "ff(xx) = xx + 1\npair(ff, ff) = 0\nyy = pair(1, 2)\nff\n", "twice(ww, ww) = ww\nyy = twice(3, 4)\nww\n",
              "ff(xx) = xx\nhh = (ff)\nhh(xx, yy) = xx*yy\nff\ndelete hh(xx)\nff\n", "id(k) = k\nff(xx) = xx\nhh = id(ff)\ndelete ff(xx)\nhh\nff\n",
              "ff(xx) = xx+1\nhh = ff\ndelete hh(xx)\nff\nhh\nff(2)\n", "aa = 1\nbb = aa\naa = 2\nbb\ndelete aa\nbb\n",
              "mm = [1,2;3,4]\nnn = mm\nmm = mm * 2\nnn\n", "ss = sin\ntt = ss\ndelete ss\ntt(0)\nsin(0)\n",
+             "aa = 1\r\n fa = 1\r\n fb = 2\r\n fa\r\n fb\r\n", "w = 0\r\n ga(q) = q\r\n gb(q) = 2*q\r\n ga\r\n gb\r\n ga(1)\r\n", "x1 = 1\rx2 = 2; x1; x2\r\n xa = 3; xb = 4; xa; xb\n",
+             "hh = sqrt\nrr = 4\nclear\nsqrt(4)\nsqrt\nabs(1)\nG\nphi\n", "clear\nsqrt\nsin\ncos\nlog\ngcd\nidentity\ntranspose\nG\nc\ntau\nϕ\nπ\n",
              "aa = 1\nff(xx) = xx\naa = 2; hh = ff; delete zz\naa\nhh\n", "aa = 1\nff(xx) = xx\ndelete aa; kk(xx) = 2*xx; ff(xx, yy) = xx*yy; pi = 3\naa\nkk\nff\n",
              "aa = 1; bb = aa; bb = 1/0; aa; bb\naa\nbb\n", "ans = 5\n2 + 2\nans\n", "ff(xx) = xx + 1\nff\nans(xx, yy) = xx * yy\nff\nans\n", "last = 1\n_ = 2\nit = 3\n7\nlast\n_\nit\nresult\nprev\n"]
-    do_stream(ctx, "copies", (gen.hist_case("c%d" % k, [t]) for k, t in enumerate(extra)), P, monitors={"alias", "frame_violated"})
+    do_stream(ctx, "copies", (gen.hist_case("c%d" % k, [t]) for k, t in enumerate(extra)), P, monitors={"alias", "frame_violated", "builtins_changed"}, oracle=oracles.oracle_guarded)
 
 
 def run_C13(ctx):
@@ -597,7 +610,7 @@ def run_C14(ctx):
     rng, quick = ctx["rng"], ctx["quick"]
     P = props.proj_values(with_pos=True, with_info=True)
     faults = ["1 / 0", "5 % 0", "[1,2;3,4] / 0", "2 m / 0", "unknown", "sin(1, 2)", "sin()", "ceil(i)", "log(i, 2)", "identity(0)", "inverse([1,2;2,4])",
-              "5 m + 1", "1 - [1]", "[1,2] * [3,4]", "[1,2] dot [1;2]", "[1,2] cross [3,4]", "2.5!", "(1 m)!", "-sin", "√sin", "|sin|", "|[1,2;3,4]|", "⌈i⌉", "⌊2 m⌋",
+              "(-3)!", "(0-4)!", "(-1)!", "(0 - 170)!", "5 m + 1", "1 - [1]", "[1,2] * [3,4]", "[1,2] dot [1;2]", "[1,2] cross [3,4]", "2.5!", "(1 m)!", "-sin", "√sin", "|sin|", "|[1,2;3,4]|", "⌈i⌉", "⌊2 m⌋",
               "⌈[1]⌉", "3(4)", "(1+2)(3)", "[1, 5 m]", "[1, 2; 3, sin]", "1 m as kg", "sin as m", "f(1, 2, 3)", "f()", "pi = 3", "sin = 2", "sin(a) = a",
               "delete pi", "delete sin(a)", "delete nothing", "delete nothing(a)", "s(a) = a", "delete s(a)", "delete f(zz, yy, xx)", "delete x(a)", "e(x) = x"]
     syn = ["1 +", "(1", "[1, 2", "|1", "⌈1", "⌊2", "1 2", "x = ", "f(a+1) = 2", "delete 3", "delete (x)", "[1, 2; 3]", "5 as", "5 as x", "1 +* 2", ")", "f(1,",
